@@ -8,6 +8,25 @@ CHECKS = {
          "text": "Every execution of every enumerated configuration (<=3 machines, 2-3 competing observations, catalogue DAGs, all shipped pairings incl. all static assignments, adversarial user algorithms with <=1/2 illegal proposals, <=1/2 delayed tasks, <=1/2 promotions among tied allocation processes) is run on the real code and after every SimPy event no machine has two live task activations. Exhaustive within these bounds, nothing sampled.",
          "note": TB + "; static planning side is an enumerated-assignment model, not SHADOW"},
 }
+def _e1(text, note=TB, technique=None, engine="E1"):
+    return {"engine": engine, "text": text, "note": note,
+            "technique": technique or "stateless model checking of the implementation: exhaustive enumeration of small configurations x algorithm pairings x deviation-bounded dynamic choices, oracle after every discrete event"}
+
+CHECKS.update({
+ "C02": _e1("Explicit-state BFS over all cluster operation histories (27+ operations, M=2 to depth 6/9, M=3 to depth 4/6, state matching) on the real Cluster plus the partition/counter oracle after every event of the simulation scopes: pools are always a permutation of the machines, each machine's pool matches its live activations, refusals are clean, the three counters are true, everything is returned at the end.", engine="E2+E1",
+            technique="explicit-state breadth-first search over operation sequences on the real Cluster with canonical state matching, plus stateless exploration of simulation trajectories"),
+ "C03": _e1("For every enumerated DAG x edge volumes x heterogeneous cluster x shipped pairing (all static assignments) x 1-2 workflows x <=1/2 delayed tasks, each task's recorded start is checked against its predecessors' finishes and the exact expected start max(allocation, arrivals)."),
+ "C04": _e1("Every run that returns, over contention/buffer/plan scopes x shipped and adversarial algorithms x tie promotions x delays, has each observation observed once, each ingest/workflow task activated exactly once, a quiescent final state and a task table with one row per executed task (FULL-mode on a conformance subset)."),
+ "C05": _e1("Every configuration of the buffer/plan/batch/contention scopes that satisfies the feasibility predicate is run under the serial-bound horizon; a crash or a horizon hit is a violation classified by crash site / stuck-state class."),
+ "C06": _e1("All (comp, data, cpu, bw, delay, unit) tuples of the stated ranges through the real allocate_task_to_cluster/do_work, all ingest durations, observed-table monotonicity, plus the per-task equation on every run of the C03 scopes.", engine="E3+E1",
+            technique="exhaustive finite-domain enumeration of the real task/cluster component against a reference formula, plus stateless exploration of simulation trajectories"),
+ "C07": _e1("Ledger reference model compared with both tiers' free space after every event / at every timestep boundary over buffer-size scopes on both sides of the tiering threshold, overlapping observations, unit variants; over-rate configurations must raise."),
+ "C08": _e1("Every observation start in plan/buffer/contention scopes is checked against the state at that moment (arrays, free machines, ingest limit, hot and cold room), array use and ingest pool are bounded after every event, ingest holds exactly demand x duration, on-time start when idle."),
+ "C09": _e1("Reservation ledger checked after every event for every batch configuration (M 2-4, partitions 1-3, min 1-2, per-observation splits, 2-3 competing observations) incl. tie promotions; adversarial batch algorithm for the exclusivity clauses."),
+ "C17": _e1("ALL task->machine assignments of catalogue DAGs on 2-3 heterogeneous machines under ingest/workflow contention and delays: every activation's machine equals the planned one; vacuity guard requires runs in which a task waited for its planned machine while another was free."),
+ "C19": _e1("The five queries are evaluated after every event of every explored run and in every state of the cluster-history BFS, and compared with independently probed truth.", engine="E1+E2",
+            technique="stateless exploration of simulation trajectories with a truth oracle after every event, plus explicit-state BFS over cluster operation histories"),
+})
 NOT_APPLICABLE = {}
 NOTES = ("All checks: /venv/bin/python check.py <id> --tier quick|thorough, cwd /verif; exit 2 = harness error. "
          "Known findings: /verif/known_findings.json. Design: /verif/DESIGN.md.")
